@@ -14,6 +14,7 @@ import Driver.OpsFlatten
 import Driver.OpsCopy
 import Driver.OpsNil
 import Driver.OpsRegistry
+import Driver.OpsLayout
 open Lean Driver
 
 def dispatch (op : String) (j : Json) : R Json :=
@@ -32,6 +33,8 @@ def dispatch (op : String) (j : Json) : R Json :=
   | "nilcell" => opNilCell j
   | "isNil" => opIsNil j
   | "typeOf" => opTypeOf j
+  | "layout" => opLayout j
+  | "cast" => opCast j
   | _ => .error s!"unknown op {op}"
 
 partial def loop (h : IO.FS.Stream) (out : IO.FS.Stream) : IO Unit := do
